@@ -73,6 +73,25 @@ def rmCheckAux : List (List (Table × Nat) × Table) → List RmObs → Option S
 def rmCheck (s : RmSim) (steps : List RmStep) (real : List RmObs) : Option String :=
   rmCheckAux (RmSim.run s steps) real
 
+/-! ### (a') a dispatch that only the OLD copy layout explains -/
+
+/-- `v ≠ 0` is not covered by the table of the model (the layout of the newest config `configWatch` has to adopt) but IS
+    covered by the table of an instance that ignored every `config` step and kept polling the old layout -/
+def staleValue (tNew tOld : Table) (v : Nat) : Bool := v != 0 && !coveredB tNew v && coveredB tOld v
+
+def staleAux : List (List (Table × Nat) × Table) → List (List (Table × Nat) × Table) → List RmObs → Bool
+  | (_, tn) :: ns, (_, to) :: os, o :: rs => (valsOf o).any (staleValue tn to) || staleAux ns os rs
+  | _, _, _ => false
+
+/-- `rmCheck`, and when it fails: `C07.stale-copy-layout` if some observed value is one that the new layout does not cover
+    and the layout before an ignored config does (a copy the cluster map lists now never entered `getMinSeqNo`) -/
+def rmCheckL (s : RmSim) (steps : List RmStep) (real : List RmObs) : Option String :=
+  match rmCheck s steps real with
+  | none => none
+  | some c =>
+    if staleAux (RmSim.run s steps) (RmSim.run { s with stale := true } steps) real then some "C07.stale-copy-layout"
+    else some c
+
 /-! ### (b) the gate -/
 
 /-- what the monitor remembers: the largest non-zero value given to `SetPersistSeqNo`,
